@@ -502,7 +502,15 @@ impl<F: AsRef<Path> + AsRef<FileId>> FileSubGroup<F> {
         for f in files {
             let path: &Path = f.as_ref();
             let id: FileId = *f.as_ref();
-            let root_idx = roots.iter().position(|r| r.is_prefix_of(path));
+            // If the roots are nested, the file belongs to the innermost one,
+            // so the result doesn't depend on the order of the roots.
+            let root_idx = roots
+                .iter()
+                .enumerate()
+                .rev()
+                .filter(|(_, r)| r.is_prefix_of(path))
+                .max_by_key(|(_, r)| r.component_count())
+                .map(|(idx, _)| idx);
             match root_idx {
                 Some(idx) => prefix_groups[idx].files.push(f),
                 None if group_by_id => id_groups.entry(id).or_insert(FileSubGroup::empty()).push(f),
